@@ -73,6 +73,12 @@ func init() {
 		Real:   []string{"encryption.GetServerTLSConfig / GetClientTLSConfig / fetchCACert / validateHasCA", "crypto/tls, crypto/x509 (standard library)"},
 		Stub:   []string{"network: vsim/simnet connection with cut / byte-flip switches", "peer: harness TLS endpoint with per-run generated credentials that presents its certificate regardless of the CA hint"},
 		Assume: append(append([]string{}, commonAssume...), "the mux receiver/establisher wrappers are tls.Server(conn, cfg) / tls.Client(conn, cfg) and the TCP server/client use credentials.NewTLS(cfg) with the same cfg: the handshake is performed directly on those configs", "crypto/rand is not owned by the simulator; outcomes do not depend on it")})
+	addSpec(&propSpec{ID: "C07", Profiles: []string{"C07"}, Level: "exploration", Chunk: 1,
+		QuickRuns: 600, ThoroughRuns: 40000, QuickWall: 80 * time.Second, ThoroughWall: 25 * time.Minute,
+		Rule:   "one evaluation = one seeded WHOLE run: a (local, remote) shard-count pair drawn from 1..64 x 1..64 or from a boundary list (powers of two up to 16384, primes, mixed composites such as 9973, 12345, 16383), the real ClusterConnection assembled and started in LCM mode on the simulated network, then 3-8 probes: DescribeCluster through the outbound or inbound server, or a replication stream opened for LCM shard 1, LCM, or a random one, whose forwarded metadata is recorded by the serving fake cluster. Configuration swarm: the pair x shard space is sampled, not enumerated; distinct = distinct trace fingerprint (pair + probes)",
+		Real:   []string{"proxy.NewClusterConnection, ClusterConnection.Start (clients, TCP servers, interceptor chain, LCM parameters per direction)", "adminServiceProxyServer.DescribeCluster and StreamWorkflowReplicationMessages (LCM branch, mapShardIDUnique), StreamForwarder", "common.GCD/LCM, temporal MapShardID and WorkflowIDToHistoryShard", "google.golang.org/grpc clients and servers"},
+		Stub:   []string{"network: vsim/simnet (seams at net.Listen and grpc.NewClient in cluster_connection.go)", "both Temporal clusters: real gRPC servers with a recording fake AdminService"},
+		Assume: append(append([]string{}, commonAssume...), "gRPC runs goroutines of its own that the simulator does not schedule; verdicts are taken from quiescent observables (what the fake cluster recorded, what the caller got back)")})
 	addSpec(&propSpec{ID: "C08", Profiles: []string{"C08", "C04"}, Level: "exploration",
 		QuickRuns: 1500, ThoroughRuns: 150000, QuickWall: 75 * time.Second, ThoroughWall: 20 * time.Minute,
 		Rule: "one evaluation = one seeded simulated ROUTE run with stream churn (successor incarnations opening while predecessors tear down); oracles: no unrecovered panic, functional probes on the newest incarnation, empty registries and no live task after all streams ended",
